@@ -31,7 +31,7 @@ BOUND = {
     "thorough": "catalogue x 2 decorations + L(5,3); same other dimensions",
 }
 # as-built additions to the bound (kept next to BOUND so that the evidence reports them)
-BOUND = {k: v + "; plus: " + 'several separate blank row / column runs each within the limit (2-3 runs, together beyond it); paths with upper-case / unknown / missing suffix; workbooks with extra sheets (misspelled, underscore-prefixed, unrelated, two at once) in every container' for k, v in BOUND.items()}
+BOUND = {k: v + "; plus: " + 'numeric / boolean header cells; small decimals as typed cells; several separate blank row / column runs each within the limit (2-3 runs, together beyond it); paths with upper-case / unknown / missing suffix; workbooks with extra sheets (misspelled, underscore-prefixed, unrelated, two at once) in every container' for k, v in BOUND.items()}
 
 _TMP = None
 
@@ -150,6 +150,8 @@ TYPED_WB = {
         {"type": "integer", "name": "a", "label": "A", "default": "5", "required": "TRUE"},
         {"type": "decimal", "name": "b", "label": "B", "default": "1.5", "read_only": "FALSE"},
         {"type": "decimal", "name": "d", "label": "D", "default": "0.30000000000000004"},
+        {"type": "decimal", "name": "e", "label": "E", "default": "0.00001"},
+        {"type": "decimal", "name": "f", "label": "F", "default": "0.000000123", "constraint": ". > 0.00000001"},
         {"type": "select_one c", "name": "s", "label": "S", "default": "1"},
         {"type": "begin repeat", "name": "r", "label": "R", "repeat_count": "3"},
         {"type": "text", "name": "t", "label": "2024"},
@@ -179,6 +181,10 @@ def typed_cells():
 def gen_typed(tier):
     cells = typed_cells()
     for fmt in ("xls", "xlsx"):
+        # a header cell that is a number / a boolean (an unknown column named 2024 / 1.5)
+        for hv in (2024, 1.5):
+            for sheet in ("survey", "choices", "settings"):
+                yield {"k": "typed", "fmt": fmt, "mode": "text", "only": -1, "hdr": [sheet, hv]}
         for mode in ("text", "native", "float"):
             yield {"k": "typed", "fmt": fmt, "mode": mode, "only": None}
             for ci in range(len(cells)):
@@ -326,10 +332,20 @@ def check_one(case):
             else:
                 tv = float(v)
             tabs[s][ri + 1][hs.index(col)] = tv
+        ref = wb
+        if case.get("hdr"):
+            hs_, hv = case["hdr"]
+            tabs[hs_][0].append(hv)
+            for r_ in tabs[hs_][1:]:
+                r_.append("v")
+            hname = "TRUE" if hv is True else str(hv)
+            ref = {s_: [dict(r_) for r_ in rows_] for s_, rows_ in wb.items()}
+            for r_ in ref[hs_]:
+                r_[hname] = "v"
         src, _ = render.render(wb, case["fmt"], tabs)
-        ref_wb = with_headers(wb)
+        ref_wb = with_headers(ref)
         arg, kw, cleanup = deliver(src, case["fmt"], "bytes", True)
-        sig = f"typed:{case['fmt']}:{case['mode']}"
+        sig = f"typed:{case['fmt']}:{case['mode']}" + (f":header-{type(case['hdr'][1]).__name__}" if case.get("hdr") else "")
     elif k == "textnoise":
         wb = {s: [dict(r) for r in rows] for s, rows in NOISE_WB.items()}
         s, ri, col = NOISE_CELLS[case["cell"]]
